@@ -144,7 +144,8 @@ impl MoveGen {
             };
         }
 
-        len
+        // promotions of the current destination that were already yielded
+        len - (PROMOTION_PIECES.len() - self.promotions.len()).min(len)
     }
 
     /// Never move to any position marked in the mask
